@@ -125,7 +125,7 @@ def main(argv=None):
         else:
             specs = mod.plan(tier, seed)
             for i, spec in enumerate(specs):
-                tmo = spec.pop("_timeout", meta.get("timeout", {}).get(tier, 900 if tier == "quick" else 7200))
+                tmo = spec.pop("_timeout", meta.get("timeout", {}).get(tier, 600 if tier == "quick" else 7200))
                 jobs.append(
                     {
                         "prop": prop, "tier": tier, "seed": seed, "shard": i, "mode": "run", "spec": spec,
